@@ -100,6 +100,8 @@ def cases(draw):
         c.update(name=name, jtype=t, value=v)
         if name in ("enc", "zip", "b64", "crit") or (name == "alg" and kind == "jws"):
             c["pos"] = "protected"
+        # the badly typed member stands in an unprotected header while the protected header carries a good value of the same name
+        c["shadow"] = c["pos"] != "protected" and name in GOOD and draw(st.booleans())
     elif rule == "missing":
         c["name"] = draw(st.sampled_from(["alg", "enc"] if kind == "jwe" else ["alg"]))
     elif rule == "crit":
@@ -149,6 +151,8 @@ def build_headers(c):
         target[name] = c["value"]
         if name in prot and target is not prot:
             del prot[name]
+        if c.get("shadow") and target is not prot:
+            prot[name] = GOOD[name]
         exp = "reject"
         if name == "crit" and c["jtype"] == "list[str]":
             exp = "dont_care"
@@ -197,6 +201,9 @@ def registries(c):
         cls = rfc7797.JWSRegistry if c["rfc7797"] else jws.JWSRegistry
         if hr is None and strict and c["seed"] % 2:
             return {"algorithms": ALL_JWS}
+        if c["seed"] % 3 == 0:
+            # the caller's registry together with a list of names: for JWS the registry (and its header rules) stays in charge
+            return {"registry": cls(header_registry=hr, algorithms=ALL_JWS, strict_check_header=strict), "algorithms": ALL_JWS}
         return {"registry": cls(header_registry=hr, algorithms=ALL_JWS, strict_check_header=strict)}
     if hr is None and strict and c["seed"] % 2 and c.get("multi") != "any":
         return {"algorithms": jweplan.ALL_NAMES}
